@@ -14,6 +14,14 @@ CHECKS = {
             "invariance. Bounded by case count; does not prove absence outside generated sizes (<=15 deltas, 5 targets).",
             "Trusted: the reference pipeline in checks/c03.py (written from the docstring/statement); finite deltas |x|<=1e300.",
             "DESIGN.md §3 C03"),
+    "C12": ("exploration",
+            "Hypothesis property test: exact differential against an independent reference propagator + budget/reachability predicates + metamorphic decomposition over graphs",
+            "Generated worlds (1-4 graphs with cycles, self-loops, parallel edges, negative/zero weights, unknown relations, tags; "
+            "texts biased to seed labels; T1 config surface incl. caps 0/1/tight/loose, slice caps, perf caps) checked against a "
+            "reference propagator written from the documented rule (ids and all six counters exactly), per-graph budget and "
+            "reachability predicates, decomposition over graphs, purity and store immutability. Bounded by case count and graph size (<=8 nodes).",
+            "Trusted: harness/models/t1.py (documented rule); exact differential only when perf caps are off.",
+            "DESIGN.md §3 C12"),
 }
 
 NOT_APPLICABLE = {
